@@ -39,7 +39,8 @@ int Parse02d(const char* p) {
   if (const char* ap = std::strchr(kDigits, *p)) {
     int v = static_cast<int>(ap - kDigits);
     if (const char* bp = std::strchr(kDigits, *++p)) {
-      return (v * 10) + static_cast<int>(bp - kDigits);
+      const int w = static_cast<int>(bp - kDigits);
+      if (v < 10 && w < 10) return (v * 10) + w;  // strchr() also finds '\0'
     }
   }
   return -1;
